@@ -57,6 +57,10 @@ def run(ctx, rep):
     common.check_duplicate_operands(ctx, rep, "R8.8", ["cobyqa.problem:Problem.__init__", "cobyqa.problem:BoundConstraints.__init__", "cobyqa.problem:LinearConstraints.__init__", "cobyqa.main:minimize"])
     from . import c10
     c10.run(ctx, Renamed(rep, to="R8.8"), r1="R8.8", only_transform=True)
+    rep.rule("R8.12", "values reported to the user stay raw: the history is written before the barrier rewrite and before the callback can end the run (see C05 R5.4, C02 R2.1)")
+    from . import c05 as _c05h, c02 as _c02h
+    _c05h.r54(ctx, Renamed(rep, to="R8.12"))
+    _c02h.check_raw_values(ctx, Renamed(rep, to="R8.12"), "R8.12", ["_fun_history", "_maxcv_history", "_x_history"])
     rep.rule("R8.11", "every attribute read on self resolves to a method, property or assigned field of its class (no AttributeError in rarely taken branches)")
     r811(ctx, rep)
     rep.rule("R8.10", "the barrier constant can be squared without overflow (it replaces NaN/inf values that the models then square): evaluated statically with the IEEE double parameters")
